@@ -36,9 +36,11 @@
 EXTENDS Integers, Sequences, FiniteSets, TLC
 
 CONSTANTS NInc, MaxNotify, MaxDeliver, WindowFix, GuardFix, CleanupFix,
+          MaxAck,     \* target acknowledgements handed to senders (0: none)
           MaxBatch,   \* task batches handed to receivers (0: none - the instances of the first version of this module)
           RetryEnds,  \* the code: TRUE. the receiver's routing retry loop (no delivery channel and no remote owner for the target
-                      \* shard: its sender is between incarnations) looks at its shutdown handle every round
+                      \* shard: its sender is between incarnations) and the sender's acknowledgement retry loops (no ack channel for
+                      \* the source shard: its receiver is between incarnations) look at their shutdown handle every round
           SerialReg   \* TRUE: a stream of a shard is opened only after its predecessor finished registering
                       \* (factors out the known findings C08-d / C08-e: concurrent registration)
 Inc == 1..NInc
@@ -57,17 +59,19 @@ VARIABLES
   dpc, dtarget, dcount,           \* Deliverer
   rb,               \* k -> "retry": receiver k holds a task batch for the target shard and is in the routing retry loop
   bcount,
+  sb,               \* k -> "retry": sender k holds an acknowledgement for the source shard and is in its retry loop
+  acount,
   crashed,          \* a send hit a closed channel outside a recover guard (process crash)
   stole             \* a cleanup step removed an entry that names another, live incarnation
 vars == <<pcS, pcR, localShard, sendReg, chanOpen, ended, ackReg, cancelReg, activeReg, cancelled, lk,
-          npc, ntarget, ncount, dpc, dtarget, dcount, crashed, stole, rb, bcount>>
+          npc, ntarget, ncount, dpc, dtarget, dcount, crashed, stole, rb, bcount, sb, acount>>
 
 Init == /\ pcS = [k \in Inc |-> "init"] /\ pcR = [k \in Inc |-> "init"]
         /\ localShard = None /\ sendReg = None /\ chanOpen = [k \in Inc |-> FALSE] /\ ended = [k \in Inc |-> FALSE]
         /\ ackReg = None /\ cancelReg = None /\ activeReg = None /\ cancelled = [k \in Inc |-> FALSE]
         /\ lk = [k \in Inc |-> None] /\ npc = "idle" /\ ntarget = None /\ ncount = 0
         /\ dpc = "idle" /\ dtarget = None /\ dcount = 0 /\ crashed = FALSE /\ stole = FALSE
-        /\ rb = [k \in Inc |-> "none"] /\ bcount = 0
+        /\ rb = [k \in Inc |-> "none"] /\ bcount = 0 /\ sb = [k \in Inc |-> "none"] /\ acount = 0
 
 (* ---------------- sender incarnation k ------------------------------------ *)
 \* streams of one shard are opened one after the other
@@ -76,54 +80,62 @@ Started(pc, k) == IF k = 1 THEN TRUE
 \* a stream for the shard is re-established while the previous incarnation is (at least) shutting down
 SSet(k) == /\ pcS[k] = "init" /\ Started(pcS, k) /\ (k > 1 => ended[k - 1])
            /\ sendReg' = k /\ chanOpen' = [chanOpen EXCEPT ![k] = TRUE] /\ pcS' = [pcS EXCEPT ![k] = "add"]
-           /\ UNCHANGED <<ended, pcR, localShard, ackReg, cancelReg, activeReg, cancelled, lk, npc, ntarget, ncount, dpc, dtarget, dcount, crashed, stole, rb, bcount>>
+           /\ UNCHANGED <<ended, pcR, localShard, ackReg, cancelReg, activeReg, cancelled, lk, npc, ntarget, ncount, dpc, dtarget, dcount, crashed, stole, rb, bcount, sb, acount>>
 SAdd(k) == /\ pcS[k] = "add" /\ localShard' = k       \* unconditional overwrite, Created = now
            /\ pcS' = [pcS EXCEPT ![k] = IF activeReg # None THEN "nlookup" ELSE "running"]
-           /\ UNCHANGED <<ended, pcR, sendReg, chanOpen, ackReg, cancelReg, activeReg, cancelled, lk, npc, ntarget, ncount, dpc, dtarget, dcount, crashed, stole, rb, bcount>>
+           /\ UNCHANGED <<ended, pcR, sendReg, chanOpen, ackReg, cancelReg, activeReg, cancelled, lk, npc, ntarget, ncount, dpc, dtarget, dcount, crashed, stole, rb, bcount, sb, acount>>
 SNLookup(k) == /\ pcS[k] = "nlookup" /\ lk' = [lk EXCEPT ![k] = sendReg]
                /\ pcS' = [pcS EXCEPT ![k] = IF sendReg = None THEN "running" ELSE "nsend"]
-               /\ UNCHANGED <<ended, pcR, localShard, sendReg, chanOpen, ackReg, cancelReg, activeReg, cancelled, npc, ntarget, ncount, dpc, dtarget, dcount, crashed, stole, rb, bcount>>
+               /\ UNCHANGED <<ended, pcR, localShard, sendReg, chanOpen, ackReg, cancelReg, activeReg, cancelled, npc, ntarget, ncount, dpc, dtarget, dcount, crashed, stole, rb, bcount, sb, acount>>
 SNSend(k) == /\ pcS[k] = "nsend" /\ crashed' = (crashed \/ (~GuardFix /\ ~chanOpen[lk[k]]))
              /\ pcS' = [pcS EXCEPT ![k] = "running"]
-             /\ UNCHANGED <<ended, pcR, localShard, sendReg, chanOpen, ackReg, cancelReg, activeReg, cancelled, lk, npc, ntarget, ncount, dpc, dtarget, dcount, stole, rb, bcount>>
+             /\ UNCHANGED <<ended, pcR, localShard, sendReg, chanOpen, ackReg, cancelReg, activeReg, cancelled, lk, npc, ntarget, ncount, dpc, dtarget, dcount, stole, rb, bcount, sb, acount>>
 \* environment: the stream of incarnation k ends (Recv/Send fail); Run notices once it is in its main wait
 EndS(k) == /\ pcS[k] \notin {"init", "done"} /\ ~ended[k] /\ ended' = [ended EXCEPT ![k] = TRUE]
-           /\ UNCHANGED <<pcS, pcR, localShard, sendReg, chanOpen, ackReg, cancelReg, activeReg, cancelled, lk, npc, ntarget, ncount, dpc, dtarget, dcount, crashed, stole, rb, bcount>>
+           /\ UNCHANGED <<pcS, pcR, localShard, sendReg, chanOpen, ackReg, cancelReg, activeReg, cancelled, lk, npc, ntarget, ncount, dpc, dtarget, dcount, crashed, stole, rb, bcount, sb, acount>>
 SClose(k) == /\ pcS[k] = "running" /\ ended[k] /\ chanOpen' = [chanOpen EXCEPT ![k] = FALSE] /\ pcS' = [pcS EXCEPT ![k] = "unreg"]
-             /\ UNCHANGED <<ended, pcR, localShard, sendReg, ackReg, cancelReg, activeReg, cancelled, lk, npc, ntarget, ncount, dpc, dtarget, dcount, crashed, stole, rb, bcount>>
+             /\ (RetryEnds \/ sb[k] # "retry") /\ sb' = [sb EXCEPT ![k] = "none"]      \* an acknowledgement held at shutdown is dropped
+             /\ UNCHANGED <<ended, pcR, localShard, sendReg, ackReg, cancelReg, activeReg, cancelled, lk, npc, ntarget, ncount, dpc, dtarget, dcount, crashed, stole, rb, bcount, acount>>
+\* an acknowledgement of the target arrives on sender k's stream (recvAck): translated and handed to the source shard's
+\* registered ack channel, or - none registered, no remote owner - the retry loop with back-off
+SAck(k) == /\ pcS[k] = "running" /\ ~ended[k] /\ sb[k] = "none" /\ acount < MaxAck /\ acount' = acount + 1
+           /\ sb' = IF ackReg # None THEN sb ELSE [sb EXCEPT ![k] = "retry"]
+           /\ UNCHANGED <<ended, pcS, pcR, localShard, sendReg, chanOpen, ackReg, cancelReg, activeReg, cancelled, lk, npc, ntarget, ncount, dpc, dtarget, dcount, crashed, stole, rb, bcount>>
+SRetry(k) == /\ pcS[k] = "running" /\ sb[k] = "retry" /\ ackReg # None /\ sb' = [sb EXCEPT ![k] = "none"]
+             /\ UNCHANGED <<ended, pcS, pcR, localShard, sendReg, chanOpen, ackReg, cancelReg, activeReg, cancelled, lk, npc, ntarget, ncount, dpc, dtarget, dcount, crashed, stole, rb, bcount, acount>>
 SUnreg(k) == /\ pcS[k] = "unreg"
              /\ IF localShard = k THEN localShard' = None /\ pcS' = [pcS EXCEPT ![k] = IF WindowFix THEN "rmchan" ELSE "window"]
                                   ELSE localShard' = localShard /\ pcS' = [pcS EXCEPT ![k] = "rmchan"]
-             /\ UNCHANGED <<ended, pcR, sendReg, chanOpen, ackReg, cancelReg, activeReg, cancelled, lk, npc, ntarget, ncount, dpc, dtarget, dcount, crashed, stole, rb, bcount>>
+             /\ UNCHANGED <<ended, pcR, sendReg, chanOpen, ackReg, cancelReg, activeReg, cancelled, lk, npc, ntarget, ncount, dpc, dtarget, dcount, crashed, stole, rb, bcount, sb, acount>>
 SUnreg2(k) == /\ pcS[k] = "window" /\ stole' = (stole \/ (localShard # None /\ localShard # k)) /\ localShard' = None
               /\ pcS' = [pcS EXCEPT ![k] = "rmchan"]
-              /\ UNCHANGED <<ended, pcR, sendReg, chanOpen, ackReg, cancelReg, activeReg, cancelled, lk, npc, ntarget, ncount, dpc, dtarget, dcount, crashed, rb, bcount>>
+              /\ UNCHANGED <<ended, pcR, sendReg, chanOpen, ackReg, cancelReg, activeReg, cancelled, lk, npc, ntarget, ncount, dpc, dtarget, dcount, crashed, rb, bcount, sb, acount>>
 SRmChan(k) == /\ pcS[k] = "rmchan" /\ sendReg' = (IF sendReg = k THEN None ELSE sendReg) /\ pcS' = [pcS EXCEPT ![k] = "done"]
-              /\ UNCHANGED <<ended, pcR, localShard, chanOpen, ackReg, cancelReg, activeReg, cancelled, lk, npc, ntarget, ncount, dpc, dtarget, dcount, crashed, stole, rb, bcount>>
+              /\ UNCHANGED <<ended, pcR, localShard, chanOpen, ackReg, cancelReg, activeReg, cancelled, lk, npc, ntarget, ncount, dpc, dtarget, dcount, crashed, stole, rb, bcount, sb, acount>>
 
 (* ---------------- receiver incarnation k ---------------------------------- *)
 RTerm(k) == /\ pcR[k] = "init" /\ Started(pcR, k)
             /\ IF cancelReg # None
                  THEN cancelled' = [cancelled EXCEPT ![cancelReg] = TRUE] /\ cancelReg' = None /\ ackReg' = None
-                 ELSE UNCHANGED <<ended, cancelled, cancelReg, ackReg, rb, bcount>>
+                 ELSE UNCHANGED <<ended, cancelled, cancelReg, ackReg, rb, bcount, sb, acount>>
             /\ pcR' = [pcR EXCEPT ![k] = "setack"]
-            /\ UNCHANGED <<ended, pcS, localShard, sendReg, chanOpen, activeReg, lk, npc, ntarget, ncount, dpc, dtarget, dcount, crashed, stole, rb, bcount>>
+            /\ UNCHANGED <<ended, pcS, localShard, sendReg, chanOpen, activeReg, lk, npc, ntarget, ncount, dpc, dtarget, dcount, crashed, stole, rb, bcount, sb, acount>>
 RSetAck(k) == /\ pcR[k] = "setack" /\ ackReg' = k /\ pcR' = [pcR EXCEPT ![k] = "setrest"]
-              /\ UNCHANGED <<ended, pcS, localShard, sendReg, chanOpen, cancelReg, activeReg, cancelled, lk, npc, ntarget, ncount, dpc, dtarget, dcount, crashed, stole, rb, bcount>>
+              /\ UNCHANGED <<ended, pcS, localShard, sendReg, chanOpen, cancelReg, activeReg, cancelled, lk, npc, ntarget, ncount, dpc, dtarget, dcount, crashed, stole, rb, bcount, sb, acount>>
 RSetRest(k) == /\ pcR[k] = "setrest" /\ cancelReg' = k /\ activeReg' = k /\ pcR' = [pcR EXCEPT ![k] = "running"]
-               /\ UNCHANGED <<ended, pcS, localShard, sendReg, chanOpen, ackReg, cancelled, lk, npc, ntarget, ncount, dpc, dtarget, dcount, crashed, stole, rb, bcount>>
+               /\ UNCHANGED <<ended, pcS, localShard, sendReg, chanOpen, ackReg, cancelled, lk, npc, ntarget, ncount, dpc, dtarget, dcount, crashed, stole, rb, bcount, sb, acount>>
 \* the loops end: cancelled by a successor, or the stream was ended from outside
 RExit(k) == /\ pcR[k] = "running" /\ pcR' = [pcR EXCEPT ![k] = "cleanup"]
             /\ (RetryEnds \/ rb[k] # "retry") /\ rb' = [rb EXCEPT ![k] = "none"]      \* a batch held at shutdown is dropped
-            /\ UNCHANGED <<ended, pcS, localShard, sendReg, chanOpen, ackReg, cancelReg, activeReg, cancelled, lk, npc, ntarget, ncount, dpc, dtarget, dcount, crashed, stole, bcount>>
+            /\ UNCHANGED <<ended, pcS, localShard, sendReg, chanOpen, ackReg, cancelReg, activeReg, cancelled, lk, npc, ntarget, ncount, dpc, dtarget, dcount, crashed, stole, bcount, sb, acount>>
 \* a task batch for the target shard arrives on receiver k's stream (recvReplicationMessages): handed to the registered delivery
 \* channel, or - none registered / it is closed (recovered), and no remote owner - the retry loop with back-off
 CanDeliver == sendReg # None /\ chanOpen[sendReg]
 RBatch(k) == /\ pcR[k] = "running" /\ rb[k] = "none" /\ bcount < MaxBatch /\ bcount' = bcount + 1
              /\ rb' = IF CanDeliver THEN rb ELSE [rb EXCEPT ![k] = "retry"]
-             /\ UNCHANGED <<ended, pcS, pcR, localShard, sendReg, chanOpen, ackReg, cancelReg, activeReg, cancelled, lk, npc, ntarget, ncount, dpc, dtarget, dcount, crashed, stole>>
+             /\ UNCHANGED <<ended, pcS, pcR, localShard, sendReg, chanOpen, ackReg, cancelReg, activeReg, cancelled, lk, npc, ntarget, ncount, dpc, dtarget, dcount, crashed, stole, sb, acount>>
 RRetry(k) == /\ pcR[k] = "running" /\ rb[k] = "retry" /\ CanDeliver /\ rb' = [rb EXCEPT ![k] = "none"]
-             /\ UNCHANGED <<ended, pcS, pcR, localShard, sendReg, chanOpen, ackReg, cancelReg, activeReg, cancelled, lk, npc, ntarget, ncount, dpc, dtarget, dcount, crashed, stole, bcount>>
+             /\ UNCHANGED <<ended, pcS, pcR, localShard, sendReg, chanOpen, ackReg, cancelReg, activeReg, cancelled, lk, npc, ntarget, ncount, dpc, dtarget, dcount, crashed, stole, bcount, sb, acount>>
 Live(j) == pcR[j] \in {"setrest", "running"}
 RCleanup(k) ==
   /\ pcR[k] = "cleanup"
@@ -132,22 +144,22 @@ RCleanup(k) ==
   /\ activeReg' = (IF CleanupFix /\ activeReg # k THEN activeReg ELSE None)
   /\ stole' = (stole \/ (~CleanupFix /\ ((cancelReg \notin {None, k} /\ Live(cancelReg)) \/ (activeReg \notin {None, k} /\ Live(activeReg)))))
   /\ pcR' = [pcR EXCEPT ![k] = "done"]
-  /\ UNCHANGED <<ended, pcS, localShard, sendReg, chanOpen, cancelled, lk, npc, ntarget, ncount, dpc, dtarget, dcount, crashed, rb, bcount>>
+  /\ UNCHANGED <<ended, pcS, localShard, sendReg, chanOpen, cancelled, lk, npc, ntarget, ncount, dpc, dtarget, dcount, crashed, rb, bcount, sb, acount>>
 
 (* ---------------- Notifier: remote register announcement for the target shard (old timestamp: no eviction) --- *)
 NLookup == /\ npc = "idle" /\ ncount < MaxNotify /\ activeReg # None
            /\ ntarget' = sendReg /\ npc' = (IF sendReg = None THEN "idle" ELSE "send") /\ ncount' = ncount + 1
-           /\ UNCHANGED <<ended, pcS, pcR, localShard, sendReg, chanOpen, ackReg, cancelReg, activeReg, cancelled, lk, dpc, dtarget, dcount, crashed, stole, rb, bcount>>
+           /\ UNCHANGED <<ended, pcS, pcR, localShard, sendReg, chanOpen, ackReg, cancelReg, activeReg, cancelled, lk, dpc, dtarget, dcount, crashed, stole, rb, bcount, sb, acount>>
 NSend == /\ npc = "send" /\ crashed' = (crashed \/ (~GuardFix /\ ~chanOpen[ntarget])) /\ npc' = "idle"
-         /\ UNCHANGED <<ended, pcS, pcR, localShard, sendReg, chanOpen, ackReg, cancelReg, activeReg, cancelled, lk, ntarget, ncount, dpc, dtarget, dcount, stole, rb, bcount>>
+         /\ UNCHANGED <<ended, pcS, pcR, localShard, sendReg, chanOpen, ackReg, cancelReg, activeReg, cancelled, lk, ntarget, ncount, dpc, dtarget, dcount, stole, rb, bcount, sb, acount>>
 (* ---------------- Deliverer: DeliverMessagesToShardOwner (send guarded by recover) --------------------------- *)
 DLookup == /\ dpc = "idle" /\ dcount < MaxDeliver
            /\ dtarget' = sendReg /\ dpc' = (IF sendReg = None THEN "idle" ELSE "send") /\ dcount' = dcount + 1
-           /\ UNCHANGED <<ended, pcS, pcR, localShard, sendReg, chanOpen, ackReg, cancelReg, activeReg, cancelled, lk, npc, ntarget, ncount, crashed, stole, rb, bcount>>
+           /\ UNCHANGED <<ended, pcS, pcR, localShard, sendReg, chanOpen, ackReg, cancelReg, activeReg, cancelled, lk, npc, ntarget, ncount, crashed, stole, rb, bcount, sb, acount>>
 DSend == /\ dpc = "send" /\ dpc' = "idle"     \* closed channel: the panic is recovered, the call returns false
-         /\ UNCHANGED <<ended, pcS, pcR, localShard, sendReg, chanOpen, ackReg, cancelReg, activeReg, cancelled, lk, npc, ntarget, ncount, dtarget, dcount, crashed, stole, rb, bcount>>
+         /\ UNCHANGED <<ended, pcS, pcR, localShard, sendReg, chanOpen, ackReg, cancelReg, activeReg, cancelled, lk, npc, ntarget, ncount, dtarget, dcount, crashed, stole, rb, bcount, sb, acount>>
 
-SenderStep(k) == SSet(k) \/ EndS(k) \/ SAdd(k) \/ SNLookup(k) \/ SNSend(k) \/ SClose(k) \/ SUnreg(k) \/ SUnreg2(k) \/ SRmChan(k)
+SenderStep(k) == SSet(k) \/ EndS(k) \/ SAdd(k) \/ SNLookup(k) \/ SNSend(k) \/ SClose(k) \/ SAck(k) \/ SRetry(k) \/ SUnreg(k) \/ SUnreg2(k) \/ SRmChan(k)
 ReceiverStep(k) == RTerm(k) \/ RSetAck(k) \/ RSetRest(k) \/ RExit(k) \/ RCleanup(k) \/ RBatch(k) \/ RRetry(k)
 Next == (\E k \in Inc : SenderStep(k) \/ ReceiverStep(k)) \/ NLookup \/ NSend \/ DLookup \/ DSend
 Spec == Init /\ [][Next]_vars
@@ -159,7 +171,7 @@ LiveR == {k \in Inc : pcR[k] = "running" /\ ~cancelled[k]}
 MaxOf(S) == CHOOSE x \in S : \A y \in S : y <= x
 NoCrash == ~crashed
 \* a receiver whose stream ends can always leave its loops - also out of the routing retry loop ("no stuck worker")
-RetryCanEnd == \A k \in Inc : pcR[k] = "running" => ENABLED RExit(k)
+RetryCanEnd == \A k \in Inc : (pcR[k] = "running" => ENABLED RExit(k)) /\ ((pcS[k] = "running" /\ ended[k]) => ENABLED SClose(k))
 OwnCleanupOnly == ~stole
 NewestSender == (Settled /\ LiveS # {}) => (localShard = MaxOf(LiveS) /\ sendReg = MaxOf(LiveS))
 NewestReceiver == (Settled /\ LiveR # {}) => (ackReg = MaxOf(LiveR) /\ cancelReg = MaxOf(LiveR) /\ activeReg = MaxOf(LiveR))
